@@ -55,7 +55,8 @@ type paceAns struct {
 }
 
 type Ctl struct {
-	mu sync.Mutex
+	settle time.Duration // the wait handed to the loop by the last ReleasePace, not yet waited out by Quiesce
+	mu     sync.Mutex
 
 	atk *vegeta.Attacker
 	res <-chan *vegeta.Result
@@ -241,6 +242,15 @@ func obsEq(a, b Obs) bool { return a.Tokens() == b.Tokens() }
 
 // Quiesce waits until every attack goroutine is parked and the observables are stable.
 func (c *Ctl) Quiesce() (Obs, bool) {
+	// the loop may sit out the wait the harness has just handed to it in any way it likes (time.Sleep shows as
+	// "sleep" in a goroutine dump, a timer in a select as "select" — which looks parked): wait it out first
+	c.mu.Lock()
+	w := c.settle
+	c.settle = 0
+	c.mu.Unlock()
+	if w > 0 {
+		time.Sleep(w + time.Millisecond)
+	}
 	deadline := time.Now().Add(5 * time.Second)
 	var last Obs
 	stable := 0
@@ -284,6 +294,9 @@ func (c *Ctl) ReleasePace(stop bool) bool {
 	if stop {
 		w = 0
 	}
+	c.mu.Lock()
+	c.settle = w
+	c.mu.Unlock()
 	c.paceCh <- paceAns{w, stop}
 	return true
 }
